@@ -22,6 +22,7 @@ from snaxc.accelerators.acc_context import AccContext
 from snaxc.dialects.dart import StreamingRegionOpBase
 from snaxc.dialects.pipeline import IndexOp, PipelineOp, StageOp, YieldOp
 from snaxc.dialects.snax import ClusterSyncOp
+from snaxc.transforms.pipeline.pipeline_canonicalize_for import extract_cst_index
 from snaxc.util.dispatching_rules import dispatch_to_compute, dispatch_to_dm
 
 
@@ -51,7 +52,13 @@ class ConstructPipeline(RewritePattern):
 
     @op_type_rewrite_pattern
     def match_and_rewrite(self, op: ForOp, rewriter: PatternRewriter):
-        # TODO: only apply for for loops with lb 0 and step 1
+        # only apply for for loops with constant bounds, lb 0, step 1 and no iter_args
+        # (the unrolled form starts its prologue at 0 and advances by 1)
+        if len(op.iter_args) != 0:
+            return
+        lb, ub, step = (extract_cst_index(x) for x in (op.lb, op.ub, op.step))
+        if lb != 0 or step != 1 or ub is None:
+            return
 
         # no nested for loop allowed
         for operation in op.walk():
@@ -109,6 +116,10 @@ class ConstructPipeline(RewritePattern):
 
         # a valid pipeline has at least two stages
         if len(stages) < 2:
+            return
+
+        # prologue and epilogue are unconditional: they need at least nb_stages - 1 iterations
+        if ub < len(stages) - 1:
             return
 
         # at this point, the correct pipeline is detected, now we should create the
